@@ -81,7 +81,16 @@ func c10Run(rc *sim.RunCtx) {
 	var cutVars [][]string
 	var hasProbe []bool
 	var cur strings.Builder
-	cur.WriteString(c10Prelude)
+	// in a sixth of the runs the host gives the session no globals object: the script owns its global GV, and the host
+	// functions arrive as parameters; every fragment runs under a context of its own that is cancelled as soon as the
+	// fragment has returned (`defer cancel()`)
+	nilGlobals := t.Bool(1, 6)
+	if nilGlobals {
+		cur.WriteString("param (PA, PB, log, op, choose, call, trace, WID)\nglobal GV\nGV = 5\n")
+		rc.Probe("session-without-globals-object")
+	} else {
+		cur.WriteString(c10Prelude)
+	}
 	kinds := []string{}
 	for i, st := range stmts {
 		cur.WriteString(st)
@@ -117,8 +126,16 @@ func c10Run(rc *sim.RunCtx) {
 	defer restoreHook()
 
 	evalOne := func(ev *ugo.Eval, w *sim.World, src string) c10Result {
-		ret, _, err := ev.Run(context.Background(), []byte(src))
+		ctx, cancel := context.WithCancel(context.Background())
+		ret, _, err := ev.Run(ctx, []byte(src))
+		cancel()
 		r := c10Result{hist: append([]string(nil), w.Hist...), glob: c10Globals(w)}
+		if nilGlobals {
+			r.glob = "nil"
+			if ev.Globals != nil {
+				r.glob = sim.Canon(ev.Globals)
+			}
+		}
 		if err != nil {
 			var c string
 			c, r.compileErr, r.innerErr = c10CanonErr(err)
@@ -132,6 +149,13 @@ func c10Run(rc *sim.RunCtx) {
 		w := sim.NewWorld(ws, nil)
 		w.Globals["GV"] = ugo.Int(5)
 		o := opts
+		if nilGlobals {
+			args := []ugo.Object{ugo.Int(3), ugo.String("pb")}
+			for _, n := range []string{"log", "op", "choose", "call", "trace", "WID"} {
+				args = append(args, w.Globals[n])
+			}
+			return ugo.NewEval(o, nil, args...), w
+		}
 		return ugo.NewEval(o, w.Globals, ugo.Int(3), ugo.String("pb")), w
 	}
 
@@ -141,7 +165,35 @@ func c10Run(rc *sim.RunCtx) {
 		rc.Fault("fragment-cut")
 	}
 	compared := 0
+	// in a quarter of the runs the session is also given, at a drawn position, a fragment that does not compile (a typo,
+	// an unknown name, an unknown module, an assignment to a constant). The batch side never sees it: the names declared
+	// by earlier fragments keep their meaning in every later fragment, whatever was rejected in between.
+	// (Not generated: a rejected fragment that declares a name before its error - the name stays in the session's symbol
+	// table, and when the rejected fragment came before the `param` declaration the run arguments are bound one slot
+	// off; and a rejected fragment that imports a module before its error. On the pinned tree that leaves the
+	// session's module store pointing into the constants of the rejected compilation, and the next import of that
+	// module panics in the compiler - a defect of Eval outside what C10 states, see DESIGN.md 8.7.)
+	broken, junk := -1, ""
+	if t.Bool(1, 4) {
+		broken = t.Draw(len(frags))
+		junk = []string{
+			"zz := := 1\n",
+			"zzq + 1\n",
+			"import(\"nosuchmodule\")\n",
+			"log(1) = 2\n",
+			"return zzq\n",
+		}[t.Draw(5)]
+	}
 	for i, f := range frags {
+		if i == broken {
+			jr := evalOne(sess, sw, junk)
+			if !jr.compileErr {
+				rc.Decoded = map[string]any{"fragment": junk, "result": jr.val}
+				rc.Fail("session-differs-from-batch", "uncompilable-fragment-accepted", "the session evaluated a fragment that cannot compile: %s\n%s", jr.val, junk)
+				return
+			}
+			rc.Fault("uncompilable-fragment")
+		}
 		got := evalOne(sess, sw, f)
 		// reference: a fresh Eval with fragments 0..i as one script
 		ref, rw := newSession()
@@ -187,8 +239,13 @@ func c10Run(rc *sim.RunCtx) {
 					what = "globals"
 				}
 			}
-			rc.Decoded = map[string]any{"fragments": frags[:i+1], "no_optimize": opts.NoOptimize, "optimizer_limit": opts.OptimizerLimit, "faults": ws.Faults,
+			dec := map[string]any{"fragments": frags[:i+1], "no_optimize": opts.NoOptimize, "optimizer_limit": opts.OptimizerLimit, "faults": ws.Faults,
 				"session": got.val, "batch": want.val}
+			if broken >= 0 && broken <= i {
+				dec["uncompilable_fragment_given_to_the_session_before_fragment"] = broken
+				dec["uncompilable_fragment"] = junk
+			}
+			rc.Decoded = dec
 			rc.Fail("session-differs-from-batch", "session-differs:"+what, "fragment %d of %d: the session and the batch evaluation of fragments 0..%d differ\n session: %s hist=%v globals=%s\n batch:   %s hist=%v globals=%s\nfragments:\n%s",
 				i, len(frags), i, got.val, got.hist, got.glob, want.val, want.hist, want.glob, strings.Join(frags[:i+1], "---- cut ----\n"))
 			return
